@@ -716,11 +716,14 @@ class StateEngine(object):
 
                 """
                 Tidy up self.branch_metadata for current execution_arn.
-                If ExecutionSucceeded we just remove, as we don't have to cater
-                for outstanding terminated branch messages subsequently arriving.
+                If a Map or Parallel state failed and the error was caught the
+                execution can succeed whilst messages from the terminated
+                Branches are still outstanding, so as with ExecutionFailed we
+                need check_pending_results, which removes the metadata as soon
+                as no results are pending.
                 """
                 if execution_arn in self.branch_metadata:
-                    del self.branch_metadata[execution_arn]
+                    self.check_pending_results(execution_arn)
         
         if self.execution_metrics:
             duration = (execution_detail["stopDate"] - 
